@@ -116,6 +116,10 @@ def shards(tier, seed):
     return out
 
 
+def opt_shards(tier):
+    return dd.residue_shards("transform-sensitive-AC", "ts", "AC", 16) + dd.seq_shards("plain-AC", "A2", len(A2), 2, "AC")
+
+
 def run_shard(sh):
     st = Stats()
     if sh["kind"] == "seq":
